@@ -146,7 +146,9 @@ class ConvexLinearApprox(MDOFunction):
             The Jacobian matrix of the convex linearization function.
         """
         merged_vect = where(self.__approx_indexes, self.__x_vect, x_new)
-        value = atleast_2d(self.__mdo_function.jac(merged_vect))
+        # Copy the Jacobian of the original function,
+        # which can be an array stored by this function (e.g. linear function).
+        value = atleast_2d(self.__mdo_function.jac(merged_vect)).copy()
         _, inv_step = self.__get_steps(x_new)
         value[:, self.__approx_indexes] = self.__direct_coeffs + multiply(
             self.__recipr_coeffs, -(inv_step**2)
